@@ -134,7 +134,7 @@ func c12SearchDriver(s *propSpec, b *build, a *agg) {
 	args := append(baseArgs(s, b), "-ref", refPath)
 	seqRuns, concRuns := int64(6000), int64(320)
 	if tier == "thorough" {
-		seqRuns, concRuns = 600000, 24000
+		seqRuns, concRuns = 3000000, 120000
 	}
 	if *flagRuns > 0 {
 		seqRuns, concRuns = *flagRuns, *flagRuns/16+1
